@@ -1,18 +1,18 @@
-\* C06, exhaustive, thorough tier: four blocks, one fork, no restart
+\* C06 with the repair of F6 as coded: removal is its own step (AtomicRemove = FALSE), the tracked list locked until it is done
 CONSTANTS
-  N = 4
+  N = 3
   Chunks = {1,2}
   TipTags = {"latest"}
   BufCap = 1
   MaxForks = 1
   MaxFails = 0
   MaxPFails = 0
-  MaxRestarts = 0
+  MaxRestarts = 1
   Detector = TRUE
   RetryLimit = 5
-  AtomicRemove = TRUE
+  AtomicRemove = FALSE
   RemoveByHash = FALSE
-  LockedRemove = FALSE
+  LockedRemove = TRUE
   Contents = {0,1}
   FinLag = 0
   NoIdle = FALSE
